@@ -394,9 +394,40 @@ def run(ctx) -> None:
     if len(tc) == 1 and kwarg(tc[0], "vertices") is not None:
         at_t = TS.cfg.node(enclosing(TS.pm, tc[0], ast.stmt))
         vres = TS.resolve(kwarg(tc[0], "vertices"), at_t)
-        m_ = pmatch(vres, "np.array([self.vertices[EC_[0]], self.vertices[EC_[1]], V0_ + I_ * DV_, V0_ + (I_ + 1) * DV_])", {"EC_", "V0_", "I_", "DV_"})
-        if m_ and m_[0][0] is vres:
-            bb = m_[0][1]
+
+        def vertex_rows(e):
+            """the rows (vertices) of the child's vertex array: np.array([r0, r1, …]) or a vertical stack of rows and row blocks; the block
+            self.vertices[EDGES_COMPLEMENT[q]] is the two rows self.vertices[EDGES_COMPLEMENT[q][0]], …[1]"""
+            if isinstance(e, ast.Call) and call_name(e) in ("np.array", "np.asarray") and e.args and isinstance(e.args[0], (ast.List, ast.Tuple)):
+                return list(e.args[0].elts)
+            if isinstance(e, ast.Call) and call_name(e) in ("np.vstack", "np.row_stack", "np.concatenate") and e.args and isinstance(e.args[0], (ast.List, ast.Tuple)):
+                out = []
+                for part in e.args[0].elts:
+                    mm = pmatch(part, "self.vertices[EDGES_COMPLEMENT[Q_]]", {"Q_"})
+                    if mm and mm[0][0] is part:
+                        out += [ast.parse(f"self.vertices[EDGES_COMPLEMENT[{mm[0][1]['Q_']}][{k_}]]", mode="eval").body for k_ in (0, 1)]
+                    elif isinstance(part, ast.Call) and call_name(part) in ("np.array", "np.asarray"):
+                        sub = vertex_rows(part)
+                        if sub is None:
+                            return None
+                        out += sub
+                    elif call_name(e) == "np.concatenate":
+                        return None
+                    else:
+                        out.append(part)
+                return out
+            return None
+        rows_ = vertex_rows(vres)
+        bb = None
+        if rows_ is not None and len(rows_) == 4:
+            import itertools
+            for perm in itertools.permutations(range(4)):
+                cand = ast.Call(func=ast.Name(id="ROWS", ctx=ast.Load()), args=[rows_[k_] for k_ in perm], keywords=[])
+                m_ = pmatch(cand, "ROWS(self.vertices[EC_[0]], self.vertices[EC_[1]], V0_ + I_ * DV_, V0_ + (I_ + 1) * DV_)", {"EC_", "V0_", "I_", "DV_"})
+                if m_ and m_[0][0] is cand:
+                    bb = m_[0][1]
+                    break
+        if bb is not None:
             ndp = td.params[1]
             e0 = pmatch(ast.parse(bb["V0_"], mode="eval").body, "self.vertices[E_[0]]", {"E_"})
             if e0:
